@@ -1221,6 +1221,14 @@ func c19Stream(r *hx.Rand, tier string, n int, w *bufio.Writer) map[string]int {
 		emit(c19RunConfig(r, caseNo, c, stats))
 		stats["later-provider"]++
 	}
+	// (1a) option lists: every kind of option, subsets, orders, repetitions, nil endpoints, both routers (c19op.go)
+	nOpt := 150
+	if tier == "thorough" {
+		nOpt = 4000
+	}
+	for k := 0; k < nOpt; k++ {
+		emit(c19RunOptions(r, caseNo, stats))
+	}
 	// (1b) sequences of requests from several hosts to one provider
 	nSeq := 110
 	if tier == "thorough" {
